@@ -101,7 +101,7 @@ def cases(tier, seed):
                 qs = [0.25, 0.75]
             r.shuffle(qs)
         out.append({"kind": "mf", "n": n, "nsf": nsf, "ncf": ncf, "cols": cols, "pred": pred, "den": den,
-                    "mode": mode, "codes": codes, "n_boot": nb, "qs": qs, "seed": r.randint(0, 2 ** 31 - 1),
+                    "mode": mode, "codes": codes, "n_boot": nb, "qs": qs, "seed": 0 if i % 7 == 3 else r.randint(0, 2 ** 31 - 1),
                     "labels": [r.choice(["int", "str"]) for _ in range(ncf + nsf)],
                     "container": r.choice(["ndarray", "DataFrame", "DataFrame", "Series", "list", "dict"]),
                     "ids_in": r.choice(["y_true", "y_true", "sample_param"])})
